@@ -43,6 +43,10 @@ func main() {
 	switch os.Args[1] {
 	case "c03":
 		runC03()
+	case "c04":
+		runC04()
+	case "c10":
+		runC10()
 	default:
 		fmt.Println("unknown subcommand", os.Args[1])
 		os.Exit(2)
